@@ -347,6 +347,15 @@ def token_cases(ctx, T, g, printed):
     return out, nex
 
 
+def fill_prec(g, T):
+    """the documented precedence table; used only to *predict* which shapes are findings (keys), never to decide
+    pass/fail: the prediction itself is compared with the Coq predicate posokb over the regenerated table"""
+    for names, p in ((("LOR",), 1), (("LAND",), 2), (("EQL", "NEQ", "LSS", "LEQ", "GTR", "GEQ", "SRARROW", "BIDIARROW"), 3),
+                     (("ADD", "SUB", "OR", "XOR"), 4), (("MUL", "QUO", "REM", "SHL", "SHR", "AND", "AND_NOT"), 5)):
+        for nm in names:
+            g.prec[T[nm]] = p
+
+
 def run(ctx):
     ctx.regen(["tokens"])
     ok = ctx.prove("C22")
@@ -354,13 +363,7 @@ def run(ctx):
     impl = ctx.harness("c22")
     T = toks(ctx)
     g = Gen(T)
-    # precedences: asked from the implementation's own table through the generated JSON is not possible
-    # (functions are emitted as text), so they are read back from the model runner below; here the
-    # documented table is used only to *predict* findings, never to decide pass/fail.
-    for names, p in ((("LOR",), 1), (("LAND",), 2), (("EQL", "NEQ", "LSS", "LEQ", "GTR", "GEQ", "SRARROW", "BIDIARROW"), 3),
-                     (("ADD", "SUB", "OR", "XOR"), 4), (("MUL", "QUO", "REM", "SHL", "SHR", "AND", "AND_NOT"), 5)):
-        for nm in names:
-            g.prec[T[nm]] = p
+    fill_prec(g, T)
     cases = build_cases(ctx, T, g)
     pin = "".join("P\t%s\t%s\n" % (c, s) for c, n, s in cases)
     rc1, out1 = ctx.run([impl], input=pin)
@@ -372,6 +375,8 @@ def run(ctx):
     # ---- B1: printer tokens, B2: parse of the printed text ----
     kc, ki, km = [], [], []
     pc, pi, pm = [], [], []
+    vc, vi, vm = [], [], []
+    proved = 0
     in_model = 0
     hist = {}
     printed = []
@@ -385,12 +390,21 @@ def run(ctx):
             continue
         in_model += 1
         printed.append(fa[0])
+        # the finding keys are derived from the same predicate the theorem assumes: posokb (Coq) ~ first_violation (here)
+        if "v" in fb[3]:
+            vc.append(s); vi.append("posok" if g.first_violation(n) is None else "violates"); vm.append("posok" if "p" in fb[3] else "violates")
+            # theorem + correspondence: a valid, lambda-free tree satisfying posokb must round-trip on the implementation
+            if "p" in fb[3] and "l" in fb[3] and fa[1] != "ok":
+                ctx.fail("tree:" + s.replace(" ", "_"), "posokb holds but Fprint(%s) = %s re-parses as %s" % (s, fa[3], fa[2]), {"tree": s, "impl": a})
+            if "p" in fb[3] and "l" in fb[3]:
+                proved += 1
         kc.append(s); ki.append(fa[0]); km.append(fb[0])
         pc.append(s)
         pi.append("ERR" if fa[1] in ("parse-error",) else fa[2])
         pm.append(fb[2] if fb[2] != "UNSUP" else ("ERR" if fa[1] == "parse-error" else fa[2]))
     ctx.diff_lines("pr~printer.Fprint+scanner", kc, "\n".join(ki), "\n".join(km))
     ctx.diff_lines("parse(pr e)~parser.ParseExpr(Fprint e)", pc, "\n".join(pi), "\n".join(pm))
+    ctx.diff_lines("posokb~finding-key predicate", vc, "\n".join(vi), "\n".join(vm))
     # ---- B3: parser on token streams ----
     tcases, nex = token_cases(ctx, T, g, printed)
     tin = "".join("T\t%s\n" % s for s in tcases)
@@ -438,7 +452,7 @@ def run(ctx):
                    "%d of them are inside the Coq model and compared token by token; non-trivial = depth>=2; failing trees: %d "
                    "(all keyed by the first operand position violating posok)" % (len(cases), in_model, nfail),
               exhaustive_part=len(cases) + nex, node_kind_histogram=dict(sorted(hist.items(), key=lambda kv: -kv[1])),
-              failing_trees=nfail, failing_shapes=sorted(fails))
+              failing_trees=nfail, failing_shapes=sorted(fails), trees_in_model=in_model, trees_covered_by_theorem=proved)
     ctx.trust("modelled, not verified: printer/nodes.go expr1/binaryExpr/selectorExpr/exprList (token output, no positions) and "
               "parser/parser.go parseLambdaExpr..parseOperand for ParseExpr (Model/Expr.v), tied by exhaustive+seeded differential runs",
               "blank insertion (mayCombine, cutoff/depth) is observed through the real scanner, not modelled")
